@@ -136,3 +136,47 @@ def html_constructs():
         ("</", b(">a /\x00")),
     ]
     return fam
+
+
+# ---------------------------------------------------------------------------
+# SQL
+
+SIGMA_SQL = b("1a '\"`\\-#/*;(),.@=<>!&|+%$[]{}:?_\nexnq0bu\x00\xa0\xe9")
+
+SQL_FRAGMENTS = [b(x) for x in [
+    " ", "\t", "\n", "\x0b", "\x0c", "\r", "\x00", "\xa0", "\x7f", "\x01", "'", '"', "`", "\\", "\\'", "\\\\", "''", '""', "``",
+    "-", "--", "-- ", "--\n", "#", "/", "/*", "*/", "/**/", "/*!", "/*!50000", "/* */", ";", ";;", "(", ")", "((", "))", ",", ".", "..",
+    "@", "@@", "@a", "@@version", "@`a`", "@'a'", '@"a"', "=", "==", "<", ">", "<=", ">=", "<>", "!=", "<=>", "!", "!!", "!<", "&", "&&", "|", "||",
+    "+", "*", "%", "^", "~", ":", "::", ":=", "?", "]", "[", "[a]", "[a", "{", "}", "{fn ", "{ `` ", "$", "$$", "$1", "$1,000.00", "$.", "$a$", "$ab$x$ab$", "$A$", "$$x$$",
+    "0", "1", "12", "1.5", ".5", "1.", "1e5", "1e", "1e+", "1e-5", "1.e", "0x", "0x1F", "0X1f", "0b", "0b10", "0B1", "1f", "1d", "1f ", "1fu", "1dU", "1F;", "123FROM",
+    "x'", "x'1f'", "X'1F", "x'1g'", "b'01'", "B'2'", "b'", "n'a'", "N'", "e'a'", "E'a\\'b'", "u&'a'", "U&'", "u&", "q'[a]'", "Q'(a)'", "q'xax'", "nq'{a}'", "nq'", "q'", "q' '", "q'\xe9a\xe9'",
+    "a", "A", "ab", "a.b", "a`b", "a.", "_a", "a_b", "select", "SELECT", "SeLeCt", "union", "UNION ALL", "union all select", "from", "where", "and", "or", "OR", "not", "NOT IN", "in", "in (", "like", "not like", "LIKE(",
+    "is", "is not", "null", "NULL", "between", "case", "when", "then", "else", "end", "if", "IF(", ";if", "having", "group by", "order by", "limit", "into", "into outfile", "INTO DUMPFILE",
+    "insert", "update", "delete", "drop", "create", "alter", "exec", "execute", "declare", "begin", "waitfor delay", "sleep(", "benchmark(", "pg_sleep(", "load_file(", "version()", "user()", "USER(", "user(a", "database(",
+    "current_user", "current_date(", "localtime", "password(", "user_id(", "collate", "collate utf8_bin", "collate a", "binary", "int", "char(", "varchar", "cast(", "convert(", "as int", "::int", "date", "_utf8", "_latin1",
+    "natural join", "left outer join", "cross join", "sounds like", "regexp", "rlike", "div", "mod", "xor", "&&1", "at time zone", "for update", "in boolean mode", "is distinct from",
+    "sp_password", "xp_cmdshell", "\\N", "\\n", "\\1", "\\%", "\xc4\xb1", "\xc5\xbf", "\xe9", "\xff", "s\xc5\xbfelect", "un\xc4\xb1on",
+    "aaaaaaaaaaaaaaaaaaaaaaaaaaaaaaa", "aaaaaaaaaaaaaaaaaaaaaaaaaaaaaaaa", "1111111111111111111111111111111111", "'aaaaaaaaaaaaaaaaaaaaaaaaaaaaaaaaaaaa'",
+]]
+
+
+def periodic_tails(r, count):
+    """u v u v shapes around quotes and backslashes (the shape that exposes scanners that re-search a tail)."""
+    units = [b(x) for x in ["'", '"', "`", "\\", "\\'", "''", "a", " ", "1", "' ", "\\\\", "x'", "--", " or 1=1", " union select 1 -- 1"]]
+    for _ in range(count):
+        u = []
+        for _ in range(r.randint(1, 3)):
+            u += r.choice(units)
+        v = []
+        for _ in range(r.randint(0, 2)):
+            v += r.choice(units)
+        pre = r.choice([[], b("1"), b("a"), b(" or 1=1"), b("x")])
+        yield pre + u + v + u + v
+        yield pre + u + v + u
+
+
+def sql_literal_cases():
+    """opening modes x bodies for the string-literal driver (C18)."""
+    openers = [("'", 39), ('"', 34), ("`", 96), ("n'", 39), ("N'", 39), ("e'", 39), ("E'", 39), ("u&'", 39), ("U&'", 39),
+               ("@'", 39), ('@"', 34), ("@`", 96), ("@@'", 39), ("1 '", 39), ("a=`", 96)]
+    return openers
